@@ -148,6 +148,9 @@ func (x *chainExec) body(h int, c flamego.Context) {
 			x.ev(map[string]interface{}{"e": "next", "h": h})
 			c.Next()
 			x.ev(map[string]interface{}{"e": "nextret", "h": h})
+		case "R":
+			c.Map(customRH)
+			x.ev(map[string]interface{}{"e": "setrh", "h": h})
 		case "C":
 			if x.v.Der {
 				// the usual timeout-middleware pattern: replace the request by one with a derived context, then cancel it
@@ -187,6 +190,11 @@ func (x *chainExec) run(h int, c flamego.Context) (ok bool) {
 	x.ev(map[string]interface{}{"e": "exit", "h": h, "ret": x.c.Progs[h].Ret})
 	return true
 }
+
+var customRH = flamego.ReturnHandler(func(c flamego.Context, vals []reflect.Value) {
+	c.ResponseWriter().WriteHeader(299)
+	_, _ = c.ResponseWriter().Write([]byte("RH"))
+})
 
 type userFast func(c flamego.Context) (int, string)
 
@@ -395,10 +403,7 @@ func chainReplay(raw json.RawMessage, idx int, tr *traceWriter) {
 	v := x.v
 	f := flamego.NewWithLogger(io.Discard)
 	if v.RH {
-		f.Map(flamego.ReturnHandler(func(c flamego.Context, vals []reflect.Value) {
-			c.ResponseWriter().WriteHeader(299)
-			_, _ = c.ResponseWriter().Write([]byte("RH"))
-		}))
+		f.Map(customRH)
 	}
 	hs := make([]flamego.Handler, n)
 	for i := 0; i < n; i++ {
@@ -524,6 +529,8 @@ func chainGen(seed int64, n int, args []string, out *json.Encoder) {
 					ops = append(ops, "W")
 				case r < 16:
 					ops = append(ops, "C")
+				case r == 19 && kind == "ret":
+					ops = append(ops, "R")
 				case r < 18 && (kind == "rec"):
 					ops = append(ops, "P")
 				default:
